@@ -244,6 +244,19 @@ func (m *Mirror) Step(op Op) Outcome {
 		for a, md := range out.Created.AccountMetadata {
 			accMeta[a] = map[string]string(md)
 		}
+		// independent expectation: account metadata given in the request plus the literal
+		// set_account_meta statements of the script must all be in the committed payload
+		for a, md := range expectedAccountMeta(op) {
+			for k, v := range md {
+				if got, ok := accMeta[a][k]; !ok || got != v {
+					m.find("C17", "C17/account-metadata-of-the-request-or-script-missing-from-the-committed-transaction:"+op.Kind, map[string]any{"account": a, "key": k, "want": v, "recorded": out.Created.AccountMetadata, "request": op.AccountMetadata, "script": op.Plain})
+					if accMeta[a] == nil {
+						accMeta[a] = map[string]string{}
+					}
+					accMeta[a][k] = v // the reference follows the request, so that the stored state is compared with it too
+				}
+			}
+		}
 		involved := map[string]bool{}
 		for _, p := range tx.Postings {
 			involved[p.Source], involved[p.Destination] = true, true
@@ -314,6 +327,11 @@ func (m *Mirror) Step(op Op) Outcome {
 					m.find("C06", "C06/non-forced-revert-left-account-negative", map[string]any{"account": p.Source, "asset": p.Asset, "balance_after": nb.String()})
 					break
 				}
+			}
+		}
+		for i, p := range rv.RevertTransaction.Postings {
+			if !reAccount.MatchString(p.Source) || !reAccount.MatchString(p.Destination) || !reAsset.MatchString(p.Asset) || p.Amount == nil || p.Amount.Sign() < 0 {
+				m.find("C28", "C28/ill-formed-posting-committed:revert", map[string]any{"index": i, "posting": p, "reverted": op.TxID})
 			}
 		}
 		rtx := m.Ref.CommitTx(*rv.RevertTransaction.ID, refPostings(rv.RevertTransaction.Postings), map[string]string(rv.RevertTransaction.Metadata),
@@ -646,3 +664,46 @@ func (m *Mirror) FindingsFor(prop string) []Finding {
 }
 
 var _ = memstore.NewCluster
+
+
+var reSetAccountMeta = regexp.MustCompile(`set_account_meta\(@([A-Za-z0-9_:]+), "([^"]+)", "([^"]*)"\)`)
+
+// expectedAccountMeta derives, from the request alone, the account metadata a committed
+// create must carry: the request's accountMetadata and the script's set_account_meta
+// statements with literal arguments (the only form the generators emit). When both set the
+// same key on the same account the outcome is not specified: such keys are left out.
+func expectedAccountMeta(op Op) map[string]map[string]string {
+	ret := map[string]map[string]string{}
+	script := map[string]map[string]string{}
+	if op.Kind == "script" {
+		for _, mm := range reSetAccountMeta.FindAllStringSubmatch(op.Plain, -1) {
+			if script[mm[1]] == nil {
+				script[mm[1]] = map[string]string{}
+			}
+			script[mm[1]][mm[2]] = mm[3]
+		}
+	}
+	for a, md := range op.AccountMetadata {
+		for k, v := range md {
+			if _, both := script[a][k]; both {
+				continue
+			}
+			if ret[a] == nil {
+				ret[a] = map[string]string{}
+			}
+			ret[a][k] = v
+		}
+	}
+	for a, md := range script {
+		for k, v := range md {
+			if _, both := op.AccountMetadata[a][k]; both {
+				continue
+			}
+			if ret[a] == nil {
+				ret[a] = map[string]string{}
+			}
+			ret[a][k] = v
+		}
+	}
+	return ret
+}
